@@ -33,6 +33,15 @@ def build_driver(repo_src):
         raise DriverError('the crate under check does not build: ' + r.stderr[-1500:])
     return os.path.join(d, 'target', 'debug', 'vxdriver')
 
+def _limit_memory():
+    """a change under check may make the crate allocate without bound (a loop that never advances): cap the replay driver at 6 GiB of address space so that such a run
+    dies with an allocation failure (reported like any other process death) instead of exhausting the machine"""
+    try:
+        import resource
+        resource.setrlimit(resource.RLIMIT_AS, (6 << 30, 6 << 30))
+    except Exception:
+        pass
+
 def run_cases(cases, repo_src, script=False, small_stack=False):
     """cases: list of dicts (m, s, ...) -> list of result dicts (None where the process died: abort / stack overflow)"""
     exe = build_driver(repo_src)
@@ -43,7 +52,7 @@ def run_cases(cases, repo_src, script=False, small_stack=False):
         args = [exe] + (['--script'] if script else []) + (['--small-stack'] if small_stack else [])
         hung = False
         try:
-            r = subprocess.run(args, input=inp, capture_output=True, text=True, timeout=(300 if script else 90))
+            r = subprocess.run(args, input=inp, capture_output=True, text=True, timeout=(300 if script else 90), preexec_fn=_limit_memory)
             so = r.stdout
         except subprocess.TimeoutExpired as e:
             # the case after the last answer never returned (deadlock / non-termination): reported like a process death
